@@ -2,6 +2,7 @@ package gosym
 
 import (
 	"fmt"
+	"go/constant"
 	"math/big"
 	"sort"
 	"strings"
@@ -106,6 +107,7 @@ type HarnessRun struct {
 	Notes        map[string]interface{}
 	MaxPC        int
 	WallS        float64
+	Witnesses    [][]interface{}
 	start        time.Time
 	aborted      bool
 }
@@ -287,6 +289,11 @@ func (h *HarnessRun) finishPath(ex *Exec, end string) {
 	for k, v := range ex.notes {
 		h.Notes[k] = v
 	}
+	if end == "done" && len(h.Witnesses) < 4 && ex.pos >= len(ex.prefix) {
+		if r, m := ex.check(nil, true); r == Sat {
+			h.Witnesses = append(h.Witnesses, ex.modelInputs(m))
+		}
+	}
 	for i := range h.Samples {
 		if h.Samples[i].PCLen == 0 {
 			h.Samples[i].PCLen = len(ex.pc)
@@ -436,6 +443,8 @@ type HarnessSummary struct {
 	Funcs        []string               `json:"functions_encoded"`
 	Notes        map[string]interface{} `json:"notes"`
 	MaxPC        int                    `json:"max_path_condition"`
+	Witnesses    [][]interface{}        `json:"witnesses"`
+	CoversDecl   []string               `json:"covers_declared"`
 	WallS        float64                `json:"wall_s"`
 }
 
@@ -451,5 +460,59 @@ func (h *HarnessRun) Summary() *HarnessSummary {
 	return &HarnessSummary{Name: h.Name, Paths: h.Paths, Ends: h.Ends, Instrs: h.Instrs, Obligations: h.obligations,
 		Discharged: h.discharged, Violations: h.Violations, KnownHits: h.KnownHits, Covers: h.Covers,
 		Inconclusive: h.Inconclusive, Unsupported: h.Unsupported, Outside: h.Outside, FeasUnknown: h.feasUnknown,
-		Samples: h.Samples, Funcs: fs, Notes: h.Notes, MaxPC: h.MaxPC, WallS: h.WallS}
+		Samples: h.Samples, Funcs: fs, Notes: h.Notes, MaxPC: h.MaxPC, WallS: h.WallS, Witnesses: h.Witnesses,
+		CoversDecl: declaredCovers(h.Fn)}
+}
+
+// declaredCovers lists the constant names passed to verifapi.Cover by the harness and the
+// repository-local functions it (transitively) references in the same package.
+func declaredCovers(fn *ssa.Function) []string {
+	seen := map[*ssa.Function]bool{}
+	names := map[string]bool{}
+	var walk func(f *ssa.Function)
+	walk = func(f *ssa.Function) {
+		if f == nil || seen[f] || len(seen) > 400 {
+			return
+		}
+		seen[f] = true
+		for _, b := range f.Blocks {
+			for _, in := range b.Instrs {
+				var cc *ssa.CallCommon
+				switch i := in.(type) {
+				case *ssa.Call:
+					cc = &i.Call
+				case *ssa.Go:
+					cc = &i.Call
+				case *ssa.Defer:
+					cc = &i.Call
+				case *ssa.MakeClosure:
+					if g, ok := i.Fn.(*ssa.Function); ok {
+						walk(g)
+					}
+				}
+				if cc == nil {
+					continue
+				}
+				if callee := cc.StaticCallee(); callee != nil {
+					if callee.String() == VerifAPIPath+".Cover" {
+						if c, ok := cc.Args[0].(*ssa.Const); ok {
+							names[constant.StringVal(c.Value)] = true
+						}
+					} else if callee.Pkg == fn.Pkg && strings.HasPrefix(callee.Name(), "verif") {
+						walk(callee)
+					}
+				}
+			}
+		}
+		for _, af := range f.AnonFuncs {
+			walk(af)
+		}
+	}
+	walk(fn)
+	var out []string
+	for n := range names {
+		out = append(out, n)
+	}
+	sort.Strings(out)
+	return out
 }
